@@ -58,6 +58,12 @@ def h_v1(ctx, charset, sepA, sepB, gap, nbody, lead, blanks):
     # the tolerated one-line layout is what some banks send, with the values it has here
     if ctx.known("C05-ascii-scan-of-body-bytes", ctx.any([ord(c) >= 128 for c in body])):
         return
+    # a preceding file with byte-identical header lines whose body does not decode in the declared charset
+    junk = {"latin_1": b"<\xa0>", "cp1252": b"<\x81\x8d>", "utf_8": b"<\xe9\xff>"}[codec]
+    try:
+        parse_header(make_source((leading + head + GAPS[gap]).encode("ascii") + junk))
+    except (UnicodeDecodeError, SyntaxError):
+        pass
     hdr, text = parse_header(make_source(data))
     ctx.check("the v1 header class is returned", type(hdr) is OFXHeaderV1)
     ctx.check("header fields equal those in the file",
@@ -66,7 +72,8 @@ def h_v1(ctx, charset, sepA, sepB, gap, nbody, lead, blanks):
     ctx.check("the body is handed over exactly: first '<' to last '>', decoded with the declared character set", text == body)
 
 
-XML1 = {'"': '<?xml version="1.0" encoding="UTF-8" standalone="no"?>', "'": "<?xml version='1.0' encoding='UTF-8' standalone='no'?>"}
+XML1 = {'"': '<?xml version="1.0" encoding="UTF-8" standalone="no"?>', "'": "<?xml version='1.0' encoding='UTF-8' standalone='no'?>",
+        "n": '<?xml version="1.0" standalone="no"?>'}
 
 
 def h_v2(ctx, q1, q2, br1, br2, nbody, lead=True):
@@ -86,6 +93,11 @@ def h_v2(ctx, q1, q2, br1, br2, nbody, lead=True):
         return
     if br1 == "" and ctx.known("C05-ascii-scan-of-body-bytes", ctx.any([ord(c) >= 128 for c in body])):
         return
+    # a preceding OFXv2 file that declares another encoding in its XML declaration
+    try:
+        parse_header(make_source(b'<?xml version="1.0" encoding="ISO-8859-1"?>\r\n<?OFX OFXHEADER="200" VERSION="203" SECURITY="NONE" OLDFILEUID="NONE" NEWFILEUID="NONE"?>\r\n<OFX>\xe9</OFX>'))
+    except (UnicodeDecodeError, SyntaxError):
+        pass
     hdr, text = parse_header(make_source(data))
     ctx.check("the v2 header class is returned", type(hdr) is OFXHeaderV2)
     ctx.check("header fields equal those in the file",
@@ -100,7 +112,7 @@ META = dict(
                    "field and kind B at one symbolic position (all 4x4 pairs in thorough); one optional blank after a symbolic colon; leading blank "
                    "lines; 6 header/body gaps; body '<' + 0..2 (quick) / 0..3 (thorough) symbolic characters + '>' over everything encodable in the declared charset incl. CR/LF",
                 v2="quote style of each declaration, line break or none after each declaration, same body space in UTF-8"),
-    models=["io.BytesIO (tell/readline/seek/read)", "bytes.decode / str.encode for ascii, latin_1, cp1252 (table read from the real codec), utf_8 (<= 3-byte sequences)",
+    models=["io.BytesIO (tell/readline/seek/read)", "bytes.decode / str.encode for ascii, latin_1, cp1252 (table read from the real codec), utf_8 (decoding: all sequence lengths; encoding: <= 3-byte characters)",
             "re on OFXHeaderV1/V2.regex and XML_REGEX", "str.strip"],
     assumptions=["oracle = the harness's own knowledge of the fields and body it assembled"],
     observations=["an OFXv2 file preceded by CR-only blank lines is refused (the XML declaration is then not at the start of the first line); "
@@ -128,8 +140,10 @@ def instances(tier, seed):
                     if sa == "NONE" and sb == "NONE" and g == "none":
                         pass
                     mk(f"v1[{cs},{sa},{sb},{g}]", "v1", dict(charset=cs, sepA=sa, sepB=sb, gap=g, nbody=nb, lead=("all" if (full or (g == gaps[0] and sb == sa)) else False), blanks=full or (sb == sa and g != gaps[0])))
-    for q1 in ('"', "'"):
+    for q1 in ('"', "'", "n"):
         for q2 in ('"', "'"):
+            if q1 == "n" and q2 == "'":
+                continue
             for br1 in ("\r\n", "\n", ""):
                 for br2 in ("\r\n", "\n", ""):
                     if not full and (br1, br2) not in (("\r\n", "\r\n"), ("", ""), ("\n", ""), ("", "\n")):
